@@ -7,8 +7,8 @@ import rslex
 
 ID = "C01"
 GEN = ["PanicSites"]
-THEOREMS = ["C01_ledger_complete", "C01_indent_shape", "C01_sites_partial_indent",
-            "C01_sites_partial_nesting", "C01_refuted_indent"]
+THEOREMS = ["C01_ledger_complete", "C01_indent_shape", "C01_sites_partial_indent", "C01_indent_bounded",
+            "C01_indent_exact_inside", "C01_sites_partial_nesting"]
 COQ_HEADER = "From Coq Require Import ZArith NArith List.\nFrom RV Require Import Run.C01.\nImport ListNotations."
 RUN_EXPR = "Run.C01.run"
 SHARD = 2000
@@ -23,10 +23,10 @@ TRUSTED = ["the nom parser, the evaluator and the Rust runtime stack are NOT mod
 ASSUMPTIONS = ["a panic is observed through catch_unwind in the harness; aborts and stack overflows through the worker's exit status"]
 LEVEL_TEXT = ("proof (partial): the inventory of potential panic sites regenerated from rsass/src on every run is proved to be "
               "covered by the reviewed ledger (a new or edited unwrap/index/arithmetic site breaks C01_ledger_complete), and the "
-              "indentation site is proved panic-free inside its bound and refuted outside (F1); the parser/evaluator/stack part of the "
+              "indentation site is proved panic-free for every length (F1 fixed); the parser/evaluator/stack part of the "
               "statement is explored by generation and mutation, not proved")
 LEVEL_NOTE = ("partial by nature: no Rust-to-Coq translator exists here, so panic freedom of the whole compiler is not a theorem; "
-              "trusted: Coq kernel, gen/gens/PanicSites.py, the harness; known panics F1-F4 are recorded by call site")
+              "trusted: Coq kernel, gen/gens/PanicSites.py, the harness; the formerly known panics F1, F2, F4 are fixed in /repo; F3 (resolve_ref) is recorded by call site")
 TECHNIQUE = "Coq proof of a generated panic-site ledger + site lemmas; generation/mutation exploration for the unmodelled part"
 
 EXTREMES = ["0", "-0", "1", "-1", "0.5", "1e308", "-1e308", "1e-320", "9223372036854775807", "-9223372036854775808",
